@@ -119,6 +119,16 @@ pub mod k {
     pub const FORGET_AT: i128 = 86; // us: the server process restarts (fresh Endpoint, same reset key and server config): every connection state is lost
     pub const MIGRATE_SILENT: i128 = 87; // 1: the client is not told about its address change (NAT rebinding): no local_address_changed()
     pub const RETRY2: i128 = 88; // 1: an on-path attacker (a second server endpoint with another token key) answers the client's token-bearing Initial with its own, well-formed Retry, delivered before the real server's reply
+    pub const BUSY_NEAR_US: i128 = 89; // >0: busy-polling driver - whenever a connection's next deadline is at most this far away every connection is driven every microsecond until then (drives that produce nothing leave no records)
+    pub const CLOSE_ON_TIMER: i128 = 90; // 1 + timer index (Timer::VALUES order: 0 LossDetection 1 Idle 2 Close 3 KeyDiscard 4 PathValidation 5 KeepAlive 6 Pacing 7 PushNewCid 8 MaxAckDelay): the application (CLOSER side) calls close() in the very driver iteration in which that timer of its connection has expired - after handle_timeout, before the endpoint's answers are delivered
+    pub const CLOSE_ON_TIMER_N: i128 = 91; // ... at its n-th expiry (default 1)
+    pub const NEW_MAXSTREAMS_AT: i128 = 92; // us: the server calls set_max_concurrent_streams on every connection
+    pub const NEW_MAX_BIDI: i128 = 93; // ... with these values (-1 = leave)
+    pub const NEW_MAX_UNI: i128 = 94;
+    pub const RESET_FORGE: i128 = 95; // 1: whenever the client puts a long-header datagram on the wire, the attacker sends it a short-header datagram addressed to that datagram's source CID and ending in the token of a stateless reset it has OBSERVED earlier (a token that belongs to some other, older connection ID)
+    pub const CLOSE_REASON_LEN: i128 = 96; // length of the reason phrase of the application close (default 3)
+    pub const SPOOF_FRESH_AT: i128 = 97; // us: the first client datagram put on the wire at or after this instant reaches the server ONLY as a copy from the attacker's address (the original is lost): the server sees a fresh, highest-numbered packet from a foreign address once
+    pub const SPOOF_FRESH_BLACKOUT: i128 = 98; // us: after that spoofed copy every client datagram is lost for this long
     pub const DGRAM_START: i128 = 81; // us: application datagrams are not sent before this instant
     pub const RECONNECT: i128 = 70; // open this many further client connections, one per drained connection (slot reuse)
 }
@@ -271,6 +281,8 @@ struct App {
     dgram_wake_set: bool,
     pending_stops: Vec<(u64, StreamId)>,
     hold_close_until: u64,
+    force_close: bool,
+    timer_hits: i128,
 }
 
 struct ConnSt {
@@ -329,6 +341,10 @@ pub struct World {
     restart_cfg: Option<Arc<EndpointConfig>>,
     att_ep: Option<Endpoint>,
     retry2_done: bool,
+    quiet: bool,
+    seen_server_cids: Vec<Vec<u8>>,
+    spoof_fresh_done: bool,
+    spoof_fresh_t: u64,
 }
 
 /// long-header Initial (QUIC v1) whose token is not empty
@@ -506,6 +522,10 @@ impl World {
             restart_cfg: None,
             att_ep: None,
             retry2_done: false,
+            quiet: false,
+            seen_server_cids: Vec::new(),
+            spoof_fresh_done: false,
+            spoof_fresh_t: 0,
             p,
         };
         let (cert, key) = load_cert();
@@ -643,6 +663,8 @@ impl World {
             dgram_wake_set: false,
             pending_stops: Vec::new(),
             hold_close_until: 0,
+            force_close: false,
+            timer_hits: 0,
         }
     }
 
@@ -741,6 +763,88 @@ impl World {
                     }
                 }
             }
+        }
+        // only connection IDs of the warm-up phase (their connections are gone when phase 2 starts)
+        if self.p.get(k::RESET_FORGE, 0) == 1 && src_ep == 1 && self.now < 900_000 && data.len() > 7 && data[0] & 0x80 != 0 {
+            let dl = data[5] as usize;
+            if 6 + dl < data.len() {
+                let sl = data[6 + dl] as usize;
+                if 7 + dl + sl <= data.len() && sl > 0 {
+                    let scid = data[7 + dl..7 + dl + sl].to_vec();
+                    if !self.seen_server_cids.contains(&scid) {
+                        self.seen_server_cids.push(scid);
+                    }
+                }
+            }
+        }
+        if self.p.get(k::RESET_FORGE, 0) == 1 && src_ep == 0 && self.now >= 1_000_000 && data.len() > 7 && data[0] & 0x80 != 0 && self.injected < 400 {
+            let dl = data[5] as usize;
+            if 6 + dl < data.len() {
+                let sl = data[6 + dl] as usize;
+                if 7 + dl + sl <= data.len() && sl > 0 {
+                    let scid = data[7 + dl..7 + dl + sl].to_vec();
+                    let mut toks: Vec<Vec<u8>> = Vec::new();
+                    // tokens of connection IDs the server used on earlier connections (an attacker learns
+                    // them by provoking stateless resets once those connections are gone): computed here
+                    // with the server's reset key
+                    {
+                        let seed = self.p.get(k::SEED, 1) as u64 ^ 0xABCD;
+                        let mut rk = [0u8; 64];
+                        for (i, b) in rk.iter_mut().enumerate() {
+                            *b = (seed as u8).wrapping_add(i as u8).wrapping_mul(37) ^ 0x5E;
+                        }
+                        let key = ring_hmac(&rk);
+                        for cid in self.seen_server_cids.iter().rev().take(6) {
+                            let mut sig = [0u8; 32];
+                            quinn_proto::crypto::HmacKey::sign(&key, cid, &mut sig);
+                            toks.push(sig[..16].to_vec());
+                        }
+                    }
+                    for e in self.stored.iter().rev() {
+                        if e.3 == -1 && e.2.len() >= 21 && e.2[0] & 0x80 == 0 {
+                            let t16 = e.2[e.2.len() - 16..].to_vec();
+                            if !toks.contains(&t16) && toks.len() < 12 {
+                                toks.push(t16);
+                            }
+                        }
+                    }
+                    for tok in toks {
+                        // Initial-shaped (the client has Initial keys from the start; short-header
+                        // packets are dropped before any reset check while 1-RTT keys are missing):
+                        // header protection / AEAD fail, what remains is the trailing token
+                        let mut f = vec![0xc0 | (self.rng.below(4) as u8), 0, 0, 0, 1, scid.len() as u8];
+                        f.extend_from_slice(&scid);
+                        f.push(0); // no source CID
+                        f.push(0); // no token
+                        f.extend_from_slice(&[0x40, 64]); // length: 64 bytes follow
+                        for _ in 0..48 {
+                            f.push(self.rng.below(256) as u8);
+                        }
+                        f.extend_from_slice(&tok);
+                        self.seq += 1;
+                        self.injected += 1;
+                        let sz = f.len() as i128;
+                        self.net.push(Pkt { at: self.now + 1000, seq: self.seq, src: dst, dst: src, ecn: None, data: f, origin: -2, kind: 7 });
+                        self.trace.push(vec![9, t, -1, 7, did, sid, sz]);
+                    }
+                }
+            }
+        }
+        let sfa = self.p.get(k::SPOOF_FRESH_AT, 0);
+        if self.spoof_fresh_done && src_ep == 0 && self.now < self.spoof_fresh_t + self.p.get(k::SPOOF_FRESH_BLACKOUT, 0).max(0) as u64 {
+            self.trace.push(vec![9, t, idx as i128, 1, sid, did, size]);
+            return;
+        }
+        if sfa > 0 && !self.spoof_fresh_done && src_ep == 0 && self.now as i128 >= sfa {
+            self.spoof_fresh_done = true;
+            self.spoof_fresh_t = self.now;
+            let asrc = SocketAddr::new(IpAddr::V4(Ipv4Addr::new(10, 6, 6, 6)), 6666);
+            let aid = self.addr_id(asrc);
+            self.seq += 1;
+            self.net.push(Pkt { at: self.now + dmin, seq: self.seq, src: asrc, dst, ecn, data: data.clone(), origin, kind: 6 });
+            self.trace.push(vec![9, t, idx as i128, 6, aid, did, size]);
+            self.trace.push(vec![9, t, idx as i128, 1, sid, did, size]);
+            return;
         }
         let fair = self.p.get(k::FAIR_RUN, 0);
         let mut lose = self.rng.chance(loss);
@@ -1021,6 +1125,13 @@ impl World {
                     // one probe per handled datagram: several datagrams may be due at one instant and
                     // the monitors explain every state change as ONE step
                     self.probe(epi, ch.0, None);
+                    // ... under its own tag (18), so that monitors relying on "a probe is followed by
+                    // poll_transmit" are not confused
+                    if let Some(last) = self.trace.last_mut() {
+                        if last[0] == 8 {
+                            last[0] = 18;
+                        }
+                    }
                 } else {
                     self.trace.push(vec![11, t, epi as i128, -3, 1]); // routed to unknown/forgotten handle
                 }
@@ -1526,11 +1637,13 @@ impl World {
                 && app.inp.len() as u64 >= app.expect_in
                 && app.dgrams_left == 0
                 && app.connected;
-            let time_close = close_at > 0 && self.now as i128 >= close_at;
+            let time_close = (close_at > 0 && self.now as i128 >= close_at) || app.force_close;
             let done = done && now_us >= app.hold_close_until;
             if i_close && ((close_at == 0 && done && (app.is_client || !app.inp.is_empty() || app.stream_bytes == 0)) || time_close) {
                 let code = if app.is_client { 42 } else { 43 };
-                conn.close(now_i, VarInt::from_u32(code), Bytes::from_static(b"bye"));
+                let rl = self.p.get(k::CLOSE_REASON_LEN, 3).max(0) as usize;
+                let reason = if rl == 3 { Bytes::from_static(b"bye") } else { Bytes::from(vec![b'r'; rl]) };
+                conn.close(now_i, VarInt::from_u32(code), reason);
                 app.closed_local = true;
                 tr.push(vec![3, t, e, c, 11, code as i128, 0, 0]);
                 did = true;
@@ -1598,6 +1711,7 @@ impl World {
 
     fn drive_conn(&mut self, epi: usize, chk: usize) {
         self.drain_tp_log();
+        let mark = self.trace.len();
         let gso = self.p.get(k::GSO, 1).max(1) as usize;
         let oidx = self.eps[epi].conns[&chk].conn_index as i128;
         let mut rounds = 0;
@@ -1658,6 +1772,9 @@ impl World {
         if self.eps[epi].conns[&chk].drained {
             let cs = self.eps[epi].conns.remove(&chk).unwrap();
             self.eps[epi].zombies.push(cs);
+        } else if self.quiet && self.trace[mark..].iter().all(|r| r[0] == 8 || r[0] == 6) {
+            // a busy-poll drive in which nothing happened leaves no records
+            self.trace.truncate(mark);
         }
     }
 
@@ -1665,6 +1782,10 @@ impl World {
         let now = self.inst(self.now);
         for epi in 0..2 {
             for z in 0..self.eps[epi].zombies.len() {
+                // the driver keeps servicing whatever deadline a drained connection still reports
+                if self.eps[epi].zombies[z].conn.poll_timeout().is_some_and(|d| d <= now) {
+                    self.eps[epi].zombies[z].conn.handle_timeout(now);
+                }
                 let mut buf = Vec::new();
                 let tr = self.eps[epi].zombies[z].conn.poll_transmit(now, 1, &mut buf);
                 let ev = self.eps[epi].zombies[z].conn.poll();
@@ -1703,13 +1824,15 @@ impl World {
         let mut replaced = 0usize;
         let mut keyupd = [false, false];
         let mut rwnd_done = false;
+        let mut maxstreams_done = false;
         let mut forgot = false;
         let mut mtu_changed = false;
         let mut hostile_done = false;
         let mut end_reason = 0;
         loop {
             self.steps += 1;
-            if self.steps > 200_000 {
+            let busy_near = self.p.get(k::BUSY_NEAR_US, 0).max(0) as u64;
+            if self.steps > if busy_near > 0 { 600_000 } else { 200_000 } {
                 end_reason = 3;
                 break;
             }
@@ -1735,13 +1858,23 @@ impl World {
                     }
                 }
             }
+            for ep in &self.eps {
+                for z in &ep.zombies {
+                    if let Some(d) = z.conn.poll_timeout() {
+                        let rel = self.rel(Some(d));
+                        if rel > self.now as i128 {
+                            upd(rel as u64);
+                        }
+                    }
+                }
+            }
             if phase2_pending {
                 if self.now < 150_000 {
                     upd(150_000);
                 }
                 upd(1_000_000);
             }
-            for key in [k::MIGRATE_AT, k::MIGRATE2_AT, k::KEYUPD_C, k::KEYUPD_S, k::CLOSE_AT, k::NEW_RWND_AT, k::LINK_MTU_AT, k::HOSTILE_AT, k::FORGET_AT] {
+            for key in [k::MIGRATE_AT, k::MIGRATE2_AT, k::KEYUPD_C, k::KEYUPD_S, k::CLOSE_AT, k::NEW_RWND_AT, k::LINK_MTU_AT, k::HOSTILE_AT, k::FORGET_AT, k::NEW_MAXSTREAMS_AT] {
                 let v = self.p.get(key, 0);
                 if v > 0 && v as u64 > self.now {
                     upd(v as u64);
@@ -1751,6 +1884,15 @@ impl World {
                 end_reason = 1;
                 break;
             };
+            // busy-polling driver: close to a connection's deadline, poll every microsecond
+            self.quiet = false;
+            if busy_near > 0 && next > self.now + 1 {
+                let near = self.eps.iter().filter(|e| !e.silent).flat_map(|e| e.conns.values()).filter_map(|c| c.wake_at).min();
+                if near.is_some_and(|w| w > self.now && w <= self.now + busy_near) {
+                    next = self.now + 1;
+                    self.quiet = true;
+                }
+            }
             if next > max_time {
                 end_reason = 2;
                 break;
@@ -1847,6 +1989,32 @@ impl World {
                 self.eps[1].zombies.clear();
                 self.trace.push(vec![13, self.now as i128, 11, 1]);
             }
+            let ms_at = self.p.get(k::NEW_MAXSTREAMS_AT, 0);
+            if ms_at > 0 && !maxstreams_done && self.now as i128 >= ms_at {
+                let nb = self.p.get(k::NEW_MAX_BIDI, -1);
+                let nu = self.p.get(k::NEW_MAX_UNI, -1);
+                // once every expected server connection exists and has completed its handshake
+                let ready = self.eps[1].conns.len() as i128 >= nconns
+                    && self.eps[1].conns.values().all(|c| !c.conn.is_handshaking());
+                if !ready {
+                    // try again at the next iteration
+                } else {
+                maxstreams_done = true;
+                for cs in self.eps[1].conns.values_mut() {
+                    if nb >= 0 {
+                        cs.conn.set_max_concurrent_streams(Dir::Bi, VarInt::from_u64(nb as u64).unwrap());
+                    }
+                    if nu >= 0 {
+                        cs.conn.set_max_concurrent_streams(Dir::Uni, VarInt::from_u64(nu as u64).unwrap());
+                    }
+                }
+                self.trace.push(vec![13, self.now as i128, 13, nb, nu]);
+                let keys: Vec<usize> = self.eps[1].conns.keys().cloned().collect();
+                for chk in keys {
+                    self.drive_conn(1, chk);
+                }
+                }
+            }
             let rw_at = self.p.get(k::NEW_RWND_AT, 0);
             if rw_at > 0 && !rwnd_done && self.now as i128 >= rw_at {
                 rwnd_done = true;
@@ -1889,6 +2057,20 @@ impl World {
                         continue;
                     }
                     let due = self.eps[epi].conns[&chk].wake_at.is_some_and(|w| w <= self.now);
+                    let cot = self.p.get(k::CLOSE_ON_TIMER, 0);
+                    if cot > 0 && due {
+                        let base = self.base + Duration::from_micros(self.p.get(k::SHIFT_US, 0) as u64);
+                        let pr = self.eps[epi].conns[&chk].conn.verif_probe(base);
+                        let dl = pr[18 + (cot as usize - 1).min(8)];
+                        if dl >= 0 && dl <= self.now as i128 {
+                            let nth = self.p.get(k::CLOSE_ON_TIMER_N, 1);
+                            let cs = self.eps[epi].conns.get_mut(&chk).unwrap();
+                            cs.app.timer_hits += 1;
+                            if cs.app.timer_hits == nth {
+                                cs.app.force_close = true;
+                            }
+                        }
+                    }
                     let sp = self.drv.chance(spurious);
                     if due || sp {
                         let now = self.inst(self.now);
@@ -2132,6 +2314,14 @@ fn hostile_frames(kind: i128, side: usize, max_uni: u64, rng: &mut Rng) -> (u8, 
             put_var(&mut b, 0);
             put_var(&mut b, 0);
         }
+        29 => {
+            // a CRYPTO frame that STARTS inside the receiver's crypto buffer limit (16 KiB by default)
+            // and ends beyond it
+            b.push(0x06);
+            put_var(&mut b, 16000);
+            put_var(&mut b, 600);
+            b.extend(std::iter::repeat(0x11).take(600));
+        }
         _ => b.push(0x01),
     }
     (2, b)
@@ -2221,7 +2411,8 @@ fn header_flags(d: &[u8]) -> i128 {
 /// Twin runs for determinism / time-translation / spurious-call checks (C20): key 901 selects
 /// how the SECOND run differs: 1 identical, 2 every instant shifted by 977_777_777 us,
 /// 3 spurious handle_timeout/poll calls and early wake-ups added (driver choices use their own
-/// PRNG stream, the network's choices are unchanged), 4 timers serviced late by up to 3 ms.
+/// PRNG stream, the network's choices are unchanged), 4 timers serviced late by up to 3 ms,
+/// 5 a busy-polling driver (every microsecond while a deadline is at most 20 ms away).
 /// Output: trace of run A, record [99], trace of run B.
 pub fn run_case(ops: &[Vec<i128>]) -> Vec<Vec<i128>> {
     let p = P::from_ops(ops);
@@ -2235,6 +2426,7 @@ pub fn run_case(ops: &[Vec<i128>]) -> Vec<Vec<i128>> {
         2 => vec![k::SHIFT_US, p.get(k::SHIFT_US, 0) + 977_777_777],
         3 => vec![k::SPURIOUS, 300, k::EARLY_POLL, 300],
         4 => vec![k::LATE_US, 3000],
+        5 => vec![k::BUSY_NEAR_US, 20000],
         _ => vec![],
     };
     // later pairs override earlier ones
